@@ -294,9 +294,30 @@ pub fn write_val<W: io::Write>(w: &mut Writer<W>, v: &Val) -> Result<usize, Erro
 }
 
 /// Writer output through a sink that accepts short writes.
-struct ShortSink { data: Vec<u8>, piece: usize }
+/// The first calls follow a generated script (0 = `Interrupted`, nothing taken; b = at most b bytes), later ones take at
+/// most `piece`; with `vectored`, `write_vectored` is native and takes bytes across buffer boundaries (what sockets and
+/// pipes do), otherwise it is std's default (first non-empty buffer).
+struct ShortSink { data: Vec<u8>, piece: usize, script: Vec<u8>, k: usize, vectored: bool }
+impl ShortSink {
+    fn draw(g: &mut Gen) -> Self {
+        let piece = 1 + g.below(9);
+        let n = g.below(10);
+        ShortSink { data: Vec::new(), piece, script: (0 .. n).map(|_| if g.chance(25) { 0 } else { 1 + g.below(12) as u8 }).collect(), k: 0, vectored: g.bool() }
+    }
+    fn step(&mut self) -> Option<usize> { let s = self.script.get(self.k).copied(); self.k += 1; match s { Some(0) => None, Some(b) => Some(b as usize), None => Some(self.piece.max(1)) } }
+}
 impl io::Write for ShortSink {
-    fn write(&mut self, b: &[u8]) -> io::Result<usize> { let n = b.len().min(self.piece.max(1)); self.data.extend_from_slice(&b[.. n]); Ok(n) }
+    fn write(&mut self, b: &[u8]) -> io::Result<usize> {
+        let Some(p) = self.step() else { return Err(io::ErrorKind::Interrupted.into()) };
+        let n = b.len().min(p); self.data.extend_from_slice(&b[.. n]); Ok(n)
+    }
+    fn write_vectored(&mut self, bufs: &[io::IoSlice<'_>]) -> io::Result<usize> {
+        if !self.vectored { return match bufs.iter().find(|b| !b.is_empty()) { Some(b) => self.write(b), None => self.write(&[]) } }
+        let Some(mut left) = self.step() else { return Err(io::ErrorKind::Interrupted.into()) };
+        let mut n = 0;
+        for b in bufs { let k = b.len().min(left); self.data.extend_from_slice(&b[.. k]); n += k; left -= k; if left == 0 { break } }
+        Ok(n)
+    }
     fn flush(&mut self) -> io::Result<()> { Ok(()) }
 }
 
@@ -304,7 +325,7 @@ fn writer_frames(g: &mut Gen, st: &mut Stats) -> CaseResult {
     st.eval();
     let n = g.below(6);
     let vals: Vec<Val> = (0 .. n).map(|_| Val::any(g)).collect();
-    let mut w = Writer::new(ShortSink { data: Vec::new(), piece: 1 + g.below(9) });
+    let mut w = Writer::new(ShortSink::draw(g));
     for v in &vals {
         let want = v.encoded().len();
         match write_val(&mut w, v) { Ok(k) => ensure!(k == want, "writer-return", "write returned {} for a {}-byte payload", k, want), Err(e) => fail!("writer-error", "write failed: {}", e) }
@@ -417,7 +438,7 @@ fn io_histories(g: &mut Gen, st: &mut Stats) -> CaseResult {
     }).collect();
     // ---- writer
     let junk = g.bytes(40);
-    let mut w = Writer::with_buffer(ShortSink { data: Vec::new(), piece: 1 + g.below(9) }, junk.clone());
+    let mut w = Writer::with_buffer(ShortSink { data: Vec::new(), piece: 1 + g.below(9), script: Vec::new(), k: 0, vectored: false }, junk.clone());
     let mut wctx: u32 = g.u32();
     let rctx0 = wctx;
     let mut expected: Vec<u8> = Vec::new();
